@@ -152,6 +152,12 @@ def body_runs(case):
         out.append(Violation("C06/run/more-levels-than-the-maximum", f"L={L}; {detail}"))
     # stopping: the last decision before returning
     crit = rec["crit_calls"]
+    # a configured weak rate is the one the bias test is run with (0 included)
+    given_alpha = {"given": case["law"]["alpha"], "mixed": case["law"]["alpha"], "zero-alpha": 0.0}.get(case["rates"])
+    if given_alpha is not None and any(abs(c["alpha"] - given_alpha) > 1e-12 for c in crit):
+        bad = next(c for c in crit if abs(c["alpha"] - given_alpha) > 1e-12)
+        out.append(Violation("C06/run/bias-test-not-run-with-the-configured-weak-rate",
+                             f"configured alpha={given_alpha}, the criterion received alpha={bad['alpha']}; {detail}"))
     stopped_on_max = (L == max_level)
     if not crit:
         out.append(Violation("C06/run/returned-without-testing-the-bias", detail))
